@@ -251,7 +251,7 @@ func init() {
 	Register(&Engine{
 		ID:       "C18",
 		Anchors:  []string{"trace.go:Trace", "tree.go:Handler", "options.go:WithTrace", "method.go:buildMethods"},
-		Cases:    func(t string) int { return map[string]int{"quick": 2400, "thorough": 60000}[t] },
+		Cases:    func(t string) int { return map[string]int{"quick": 20000, "thorough": 1000000}[t] },
 		Run:      runC18,
 		Directed: c18Directed,
 		Rule: "three monitors by case index: (0) Handle/Remove/Clean history (2/3 with WithTrace) with the Allow monitor of C04 after every step (TRACE in every Allow set, OPTIONS * included); (1) router reached by Handle/Use/Remove steps, manual Handle(TRACE), then 30 TRACE requests on hostile paths: configured handler with exactly the Use chain, or ordinary method per table model without the option; (2) 40 requests with HTML metacharacters in path/query/host/headers/body through the bundled Trace helper on the wire-faithful recorder, compared with the escaped dump of an oracle-rebuilt request; " +
